@@ -50,6 +50,38 @@ def collision_violation(sa, sb, ta, tb, why):
     return v
 
 
+def float_token_tie(rnd, n):
+    """real json.dumps(float) tokens vs the model's float-token grammar; returns (disagreements, count)"""
+    import struct
+    import driver
+    toks = set(pg.EDGE_FLOATS) | {'NaN'}
+    while len(toks) < n:
+        k = rnd.random()
+        try:
+            if k < 0.5:
+                x = struct.unpack('<d', struct.pack('<Q', rnd.getrandbits(64)))[0]       # any bit pattern
+            elif k < 0.8:
+                x = rnd.uniform(-1e6, 1e6) * 10.0 ** rnd.randrange(-320, 303)
+            else:
+                x = float(rnd.randrange(-10 ** 17, 10 ** 17))                            # integral floats: '1e+16', '123.0'
+            toks.add(json.dumps(x))
+        except (OverflowError, ValueError):
+            continue
+    toks = sorted(toks)
+    bad = ['', '0', '-1', '15', '1,2', '1.', '.5', '1e5', '1E+5', 'nan', 'inf', '-inf', 'Infinity ', '+1.0', '1.0e', '1.5e+', '--1.0',
+           'true', 'null', '"1.5"', '1.5]', '1 .5', '0x1p3'] + [str(rnd.randrange(-10 ** 12, 10 ** 12)) for _ in range(50)]
+    out = driver.run_lines(['FTOK ' + t.encode().hex() for t in toks + bad])
+    dis = []
+    for t, o in zip(toks, out[:len(toks)]):
+        if o != 'ok 1':
+            dis.append(dict(spec=['float', t], diff=f'json.dumps prints the float token {t!r}, which the model grammar wfFloatTok rejects ({o}): dumps_injective would not cover it'))
+    for t, o in zip(bad, out[len(toks):]):
+        # (the empty token cannot be sent over the line protocol: bad-op)
+        if o == 'ok 1':
+            dis.append(dict(spec=['float', t], diff=f'the model grammar wfFloatTok accepts {t!r}, which json.dumps never prints for a float'))
+    return dis[:5], len(toks) + len(bad)
+
+
 def check_batch(specs, reals, viol, dist):
     """pairwise monitor over one batch of accepted constructor calls"""
     by_key = collections.defaultdict(list)
@@ -339,6 +371,12 @@ def run(ctx):
         v, d = run_tree(rp['spec'])
         return dict(evaluations=1, distinct_nontrivial=0, rule=RULE, samples=[rp], violations=v, disagreements=d, distribution={},
                     assumptions=[], explanation='replay of one constructor call')
+
+    # 0. the hypothesis of dumps_injective: every token the real json.dumps prints for a float satisfies the Lean
+    #    grammar wfFloatTok (driver word FTOK), and texts that are not float tokens do not
+    ft_dis, ft_n = float_token_tie(rnd, 4000 if ctx['tier'] == 'quick' else 200000)
+    dis += ft_dis
+    dist['float_tokens_checked_against_wfFloatTok'] = ft_n
 
     scripts = [start_script(hs) for hs in ([0] if ctx['tier'] == 'quick' else [0, 7, 12345])]
 
